@@ -833,8 +833,17 @@ func guardsOfDeep(blk *ssa.BasicBlock) []Guard {
 		}
 		for _, g := range gs {
 			call, ok := g.Cond.(*ssa.Call)
+			ri := 0
 			if !ok {
-				continue
+				// the bool of a multi-result predicate: v, ok := pred()
+				ex, isEx := g.Cond.(*ssa.Extract)
+				if !isEx {
+					continue
+				}
+				if call, ok = ex.Tuple.(*ssa.Call); !ok {
+					continue
+				}
+				ri = ex.Index
 			}
 			h := call.Call.StaticCallee()
 			if h == nil || len(h.Blocks) == 0 || seen[h] || h.Pkg == nil || !inModule(h.Pkg.Pkg) {
@@ -848,10 +857,10 @@ func guardsOfDeep(blk *ssa.BasicBlock) []Guard {
 				}
 			}
 			res := h.Signature.Results()
-			if res.Len() != 1 {
+			if ri >= res.Len() || (res.Len() != 1 && g.Cond == ssa.Value(call)) {
 				continue
 			}
-			if bt, ok := res.At(0).Type().Underlying().(*types.Basic); !ok || bt.Kind() != types.Bool {
+			if bt, ok := res.At(ri).Type().Underlying().(*types.Basic); !ok || bt.Kind() != types.Bool {
 				continue
 			}
 			seen[h] = true
@@ -859,7 +868,10 @@ func guardsOfDeep(blk *ssa.BasicBlock) []Guard {
 			var common []Guard
 			first := true
 			for _, r := range returnsOf(h) {
-				v := retVals(r)[0]
+				if ri >= len(retVals(r)) {
+					continue
+				}
+				v := retVals(r)[ri]
 				if k, isK := constBool(v); isK && k != g.Pol {
 					continue
 				}
